@@ -248,6 +248,19 @@ func cmdIP(args []string) {
 				fc := ncT.fc.Clone()
 				fc.SetPermittedIPs([][]byte{append(append([]byte{}, ip.Mask(m)...), m...)})
 				lintOn(ncT, fc, ev.M{"what": "net", "g": g, "len": p, "util": util.IntersectsIANAReserved(net.IPNet{IP: ip.Mask(m), Mask: m})})
+				// the same permitted network with a strictly smaller network at its base (and one at its end) excluded: whatever is
+				// left still holds the reserved addresses it held, unless the excluded part swallowed them all
+				if p+2 <= total && i%3 == 0 {
+					for _, xl := range []int{total, (p + total + 1) / 2} {
+						if xl <= p {
+							continue
+						}
+						xm := maskOf(xl, total)
+						fx := ncT.fc.Clone()
+						fx.SetPermittedAndExcludedIPs([][]byte{append(append([]byte{}, ip.Mask(m)...), m...)}, [][]byte{append(append([]byte{}, ip.Mask(m).Mask(xm)...), xm...)})
+						lintOn(ncT, fx, ev.M{"what": "net-excl", "g": g, "len": p, "xlen": xl, "util": util.IntersectsIANAReserved(net.IPNet{IP: ip.Mask(m), Mask: m})})
+					}
+				}
 			}
 		}
 	}
